@@ -125,6 +125,14 @@ func (s *Session) verifyFunc(fn *ssa.Function, c *Contract) (vc *FnVC, err error
 		}
 		vc.oblige(fmt.Sprintf("post:%s", clauseName(e, k)), exitReach, t, e.Text, fn.Pos())
 	}
+	if s.probeFalse {
+		vc.oblige("probe:false", exitReach, tFalse, "vacuity probe: must NOT be provable", fn.Pos())
+	}
+	// per-return reachability (informational): an unreachable return under the contract is reported in the evidence;
+	// a success path that silently became unreachable (contradictory assumptions) shows up here.
+	for i, r := range fr.rets {
+		vc.items = append(vc.items, Item{Kind: ItemOblig, Text: "(not " + r.reach.S + ")", Name: fmt.Sprintf("reach:return%d@%d", i+1, s.pos(r.pos).Line), Info: "informational: is this return reachable under the contract?", Pos: s.pos(r.pos), Kept: false})
+	}
 	// vacuity: some return must be reachable under all assumptions
 	vc.items = append(vc.items, Item{Kind: ItemOblig, Text: "(not " + exitReach.S + ")", Name: "cover:return", Info: "vacuity guard: a return is reachable (this query must be satisfiable)", Pos: s.pos(fn.Pos()), Kept: false})
 	return vc, nil
